@@ -10,7 +10,8 @@ THEOREMS = ["LNN.C06_sweep_zero_fix",
             "LNN.C06_fixpoint_grid",
             "LNN.C06_terminates",
             "LNN.C06_terminates_two_N",
-            "LNN.C06_terminates_exists"]
+            "LNN.C06_terminates_exists",
+            "LNN.C06_pInfer_is_fInfer"]
 MODULES = ["LnnVerif.Props.C06"]
 FACETS = {"bounds", "reported"}
 MAXS = 200
